@@ -54,6 +54,7 @@ func (e *Exec) call(fr *frame, ci ssa.CallInstruction, st *State, k func(*State,
 				e.hooks.OnInvoke(e, st, ci, fv, args, res)
 			} else {
 				e.safety(fr, st, "nil-func:"+valName(c.Value), Not(Eq(fv.L[0], IntLit(0))), ci)
+				st.events = append(st.events, Event{Kind: "extern", Callee: "dynamic-call:" + valName(c.Value), Mode: "dynamic", SVs: args, Instr: ci})
 				e.havocAll(st)
 			}
 			e.wfAssume(st, res)
@@ -213,7 +214,7 @@ func (e *Exec) applyContract(fr *frame, st *State, ci ssa.CallInstruction, calle
 		}
 	}
 	pre := st.clone()
-	env := &specEnv{into: st, st: st, old: pre, vars: vars, oldVars: vars, pkg: pkgOf(callee)}
+	env := &specEnv{goal: true, into: st, st: st, old: pre, vars: vars, oldVars: vars, pkg: pkgOf(callee)}
 	cname := fnName(fr.fn)
 	for _, rq := range sp.Requires {
 		g, err := e.evalSpecBool(rq.Expr, env)
